@@ -232,8 +232,16 @@ class Rig:
     def set(self, key, d, env=NOMINAL):
         """helper.setDistance(d), the roboRIO in state env ->
         (outcome of the call, helper.getDistance(), voltage, reading)"""
-        sensor, _, helper = self.s[key]
+        sensor, ain, helper = self.s[key]
         self.apply(env)
+        # every other call goes through a helper that was just created (what a test that builds its own helper sees) and
+        # starts from a voltage the previous call did not leave behind: the reading must come from THIS setDistance(d)
+        self._nset = getattr(self, "_nset", 0) + 1
+        if self._nset % 2 == 1:
+            S = BY_KEY[key]
+            helper = getattr(self.simmod, S["sim"])(sensor)
+        else:
+            ain.setVoltage(VREF / 2 if sensor.distance.getVoltage() != VREF / 2 else VREF / 4)
         try:
             helper.setDistance(d)
         except Exception as ex:  # noqa: BLE001
